@@ -159,9 +159,12 @@ class TracerReplayer:
             self.z = al.Function(z0)
             self.nodes.append(self.z); self.recd.append(True); self.graph_nodes.append(self.z)
             self.check_graph()
-        if self.prefix == "buffered":
+        if self.prefix in ("buffered", "overwritten"):
             for ins in ({"op": "get", "a": 1, "b": 0, "i": 1}, {"op": "get", "a": 1, "b": 0, "i": 2},
                         {"op": "set", "a": 2, "b": 3, "i": 1}, {"op": "get", "a": 2, "b": 0, "i": 1}):
+                self.rec({"ins": ins, "on": True, "v": []}, 0)
+        if self.prefix == "overwritten":
+            for ins in ({"op": "mul", "a": 6, "b": 6, "i": 0}, {"op": "set", "a": 2, "b": 7, "i": 1}):
                 self.rec({"ins": ins, "on": True, "v": []}, 0)
 
     def check_graph(self):
